@@ -233,6 +233,72 @@ def h4(prog, rep):
     rep.check(ok, "H4-sift", "swap exchanges slots i and j", sw.loc, "", function="swap", construct="swap")
 
 
+def h6_build(prog, rep):
+    """ptrheap_create turns the copied array into a heap: the sift-down pass visits every node that has a child.  Relational
+    (sa/poly.py, floor division, C's unsigned subtraction translated only where it provably does not wrap): under N >= 2 the
+    index the pass starts from satisfies 2 * start + 3 >= N (start is at or beyond the last internal node, floor(N/2) - 1);
+    the pass steps down by one and each step sifts node i within the N elements."""
+    from .. import poly
+    from ..poly import Lin
+    u = prog.unit(PH)
+    f = u.func("ptrheap_create")
+    if f is None:
+        raise cdb.AnalysisBroken("anchor missing: ptrheap_create")
+    calls = list(f.calls("heapify"))
+    Np = [p for p in f.params if (u.types.get(p["ty"]) or {}).get("kind") == "int"]
+    if len(calls) != 1 or len(Np) != 1:
+        rep.bad("H4-sift", "ptrheap_create builds the heap with one sift-down pass over the N elements", f.loc,
+                "%d heapify calls, %d integer parameters" % (len(calls), len(Np)), function=f.name, construct="build-pass")
+        return
+    N = ("v", Np[0]["name"], Np[0]["id"])
+    c = calls[0]
+    iv = norm(c.arg(1))
+    okc = iv[0] == "v" and norm(c.arg(2)) == N
+    # the loop: head tests i < N, the step is i--
+    head = [b for b in f.blocks.values() if b.cond is not None and b.term_cls == "ForStmt" and c.block.id in f.reach_from(b.id) and b.id in f.reach_from(c.block.id)]
+    steps = [e for e in f.all_elems() if e.is_incdec and norm(e.kid(0)) == iv and e.block.id in f.reach_from(c.block.id) and c.block.id in f.reach_from(e.block.id)]
+    okl = len(head) == 1 and len(steps) == 1 and steps[0].op.endswith("--") and any(op == "<" and L == iv and R == N for op, L, R, _, _ in cond_atoms(head[0].cond, True))
+    # the initial value: the assignment to i that reaches the loop head from outside the loop
+    A = poly.Analysis(f, assume=[(">=", Lin.var(N), Lin.const(2))], quiet={"heapify", "ptrlist_init", "ptrlist_get", "malloc", "free", None}, unsigned_terms={N}).run()
+    inits = [e for e in f.all_elems() if e.is_assign and e.op == "=" and norm(e.kid(0)) == iv and head and head[0].id in f.reach_from(e.block.id)
+             and not (e.block.id in f.reach_from(c.block.id))]
+    init = None
+    for e in inits:
+        # the last one before the loop (the one in the block that leads into the head)
+        if head and any(p == e.block.id for p in head[0].preds):
+            init = e
+    start = None
+    oks = False
+    if init is not None:
+        st = A.state_before(init)
+        start = A.lin(init.kid(1), st) if st is not None else None
+        oks = start is not None and A.holds(st, ">=", start.scale(2) + Lin.const(3), Lin.var(N))
+    rep.check(okc and okl and oks, "H4-sift", "ptrheap_create: the sift-down pass starts at or beyond the last node that has a child and comes down one node at a time", f.loc,
+              "heapify(elems, i, N): %s; loop `i < N; i--`: %s; start %s with 2*start + 3 >= N for N >= 2: %s (a start computed with an unsigned subtraction that can wrap, "
+              "or below floor(N/2) - 1, leaves the last parent unsifted for some N)" % (okc, okl, start, oks), function=f.name, construct="build-pass")
+
+
+def h7_keychange(prog, rep):
+    """timerqueue_increase: once the record's time has been overwritten the heap is told, on every path to the return (a record
+    whose key changed keeps its old position otherwise, and the queue releases timers out of order)."""
+    u = prog.unit("datastruct/timerqueue.c")
+    f = u.func("timerqueue_increase")
+    if f is None:
+        raise cdb.AnalysisBroken("anchor missing: timerqueue_increase")
+    writes = [c for c in f.calls("memcpy") if any(t[0] == "." and t[2] == "tv" for t in subterms(norm(c.arg(0))))]
+    writes += [e for e in f.all_elems() if e.is_assign and any(t[0] == "." and t[2] == "tv" for t in subterms(norm(e.kid(0))))]
+    tells = list(f.calls("ptrheap_increase"))
+    ok = len(writes) >= 1 and len(tells) == 1
+    why = "%d writes of the record's time, %d ptrheap_increase calls" % (len(writes), len(tells))
+    if ok:
+        for w in writes:
+            # every path from the write to the function's exit passes the notification
+            if not f.always_passes(w, tells[0]):
+                ok = False
+                why = "a path leaves timerqueue_increase after the time was stored at %s without ptrheap_increase" % w.loc
+    rep.check(ok, "H4-sift", "timerqueue_increase: the heap is told of the later time on every path after it was stored", f.loc, why, function=f.name, construct="increase-notify")
+
+
 def h5(prog, rep):
     """ptrheap_delete: the element moved into the hole comes from the end of the array, i.e. possibly from another
     subtree, so it may be smaller than its new parent as well as larger than its new children: the deletion must be
@@ -343,6 +409,8 @@ def run(tier):
     h1(prog, rep)
     h4(prog, rep)
     h5(prog, rep)
+    h6_build(prog, rep)
+    h7_keychange(prog, rep)
     h2_h3(prog, rep)
     # the timer queue's order is its comparator's: lexicographic on (sec, usec) for all nine orderings, release only on the
     # not-later edge, keys stored before the heap is told (rules shared with C04)
